@@ -177,6 +177,12 @@ def validate_models(H, cfgs, L, report):
                 obs.append((outcome, [(l, to_py(v)) for l, v in ctx.observations]))
             n += 1
             (o1, a), (o2, b) = obs
+            if o2.startswith("violation:") and not o1.startswith("violation:"):
+                # the REAL code violates the property on this concrete fixture (the modelled run does not):
+                # a replay-confirmed violation in its own right
+                report.append(dict(label=o2[len("violation:"):], key="fixture: " + o2[len("violation:"):], cfg=cfg,
+                                   model={k: E._js(v) for k, v in values.items()}, detail="violated by the real code on a concrete fixture input", confirmed=True, notes=[]))
+                continue
             if o1 != o2 or len(a) != len(b) or not all(x[0] == y[0] and same(x[1], y[1]) for x, y in zip(a, b)):
                 first = next((i for i, (x, y) in enumerate(zip(a, b)) if x[0] != y[0] or not same(x[1], y[1])), None)
                 return n, "model validation mismatch cfg=%s values=%s: shim=%s real=%s first_diff=%s" % (
@@ -235,9 +241,11 @@ def main(argv=None):
     # ---- model validation (modelled libraries vs real libraries on concrete inputs)
     L0 = get_loader(json.dumps(patches, sort_keys=True) if patches else None, patches)
     nvalid, err = (0, None)
+    fixture_violations = []
     if not patches:
         try:
-            nvalid, err = validate_models(H, cfgs, L0, None)
+            fixture_violations = []
+            nvalid, err = validate_models(H, cfgs, L0, fixture_violations)
         except Exception as ex:
             err = "model validation crashed: %s\n%s" % (ex, traceback.format_exc()[-1200:])
     if err:
@@ -289,7 +297,7 @@ def main(argv=None):
     sources = {}
     assumptions = set(getattr(H, "ASSUMPTIONS", []))
     per_cfg = {}
-    raw_violations = list(extra.get("violations", []))
+    raw_violations = list(extra.get("violations", [])) + (fixture_violations if not patches else [])
     for r in results:
         if r["inconclusive"]:
             inconclusive.append("cfg %s: %s" % (r["cfg"].get("name"), r["inconclusive"]))
